@@ -141,6 +141,17 @@ def resolve_locals(parts, fn, resolver, depth=0):
 
 
 def check(run):
+    check_names(run, "R15.1", "R15.2")
+    check_rest(run)
+    # a file published under its final name ends with the closing break whenever it holds a block (R02.3/R02.4 imported)
+    from . import C02 as _C02, C06 as _C06
+    _C02.check_framing(_C06._Renamed(run, {"R02.3": "R15.6", "R02.4": "R15.6"}))
+
+
+def check_names(run, R1, R2, only_names=False):
+    """Who opens / renames output files, under which names (R15.1, R15.2).  Other properties import the two name obligations:
+    the scratch file of an output is <its final name>.part - that is what carries the compression suffix (C14), keeps
+    distinct outputs on distinct files while they are written (C20) and makes rotation publish the right file (C13)."""
     facts = run.facts
     cache = cached_path_members(facts, WSTR)
     cache.pop("m_value", None)
@@ -170,33 +181,41 @@ def check(run):
             if c.get("k") == "Construct" and ("basic_ofstream" in (c.get("t") or "")) and c.get("args"):
                 opens.append((f, c))
     ok = len(opens) == 1 and opens[0][0].get("cls") == WSTR and opens[0][0]["qn"].endswith("::open")
-    run.ob("R15.1", "single-open-site", ok, opens[0][0] if opens else None, opens[0][1].get("l", 0) if opens else 0,
-           "output files are opened at exactly one site, Writer<std::string>::open" if ok else
-           "output files are opened at %s" % [(short(f["qn"]), c.get("l")) for f, c in opens])
+    if not only_names:
+        run.ob(R1, "single-open-site", ok, opens[0][0] if opens else None, opens[0][1].get("l", 0) if opens else 0,
+               "output files are opened at exactly one site, Writer<std::string>::open" if ok else
+               "output files are opened at %s" % [(short(f["qn"]), c.get("l")) for f, c in opens])
     open_parts = None
     if opens:
         f, c = opens[0]
         open_parts = parts_at(c["args"][0], f)
-        okp = open_parts[-1:] == [".part"] and ("this", "m_value") in open_parts
+        okp = open_parts == [("this", "m_value"), ("this", "m_extension"), ".part"]
         if not okp and cache_undecided:
             okp = None
-        run.ob("R15.1", "open-target-is-.part", okp, f, c.get("l", 0),
+        elif not okp and open_parts[-1:] == [".part"] and ("this", "m_value") in open_parts and \
+                any(isinstance(x, tuple) and x not in (("this", "m_value"), ("this", "m_extension")) for x in open_parts):
+            # <name> <something kept in another member> .part : what that member holds is not decided here
+            okp = None
+            cache_undecided = "member %s takes the place of the extension" % [x for x in open_parts if isinstance(x, tuple) and x not in (("this", "m_value"), ("this", "m_extension"))][0][-1]
+        run.ob(R1, "open-target-is-.part", okp, f, c.get("l", 0),
                "the stream is opened on <name><ext>.part" if okp else
                ("the stream is opened on %s, not on the .part name" % open_parts if okp is False else
                 "the opened name %s is kept in members whose refresh protocol is not decided: %s" % (open_parts, cache_undecided)))
     ok = len(renames) == 1 and renames[0][0].get("cls") == WSTR and renames[0][0]["qn"].endswith("::close")
-    run.ob("R15.1", "single-rename-site", ok, renames[0][0] if renames else None, renames[0][1].get("l", 0) if renames else 0,
+    if not only_names:
+      run.ob(R1, "single-rename-site", ok, renames[0][0] if renames else None, renames[0][1].get("l", 0) if renames else 0,
            "rename is called at exactly one site, Writer<std::string>::close" if ok else
            "rename/link is called at %s" % [(short(f["qn"]), c.get("l")) for f, c in renames])
     # data goes only to m_out
-    wf = facts.fn(WSTR + "::write", rule="R15.1")
+    wf = facts.fn(WSTR + "::write", rule=R1)
     wcalls = [c for c in ir.calls_in(wf["body"]) if callee_name(c) == "write"]
     ok = len(wcalls) == 1 and path(wcalls[0].get("recv")) == ("this", "m_out")
-    run.ob("R15.1", "data-to-the-opened-stream", ok, wf, wf["line"], "write() hands the bytes to the stream opened on the .part file")
-    run.floor("R15.1", 4, "open/rename sites")
+    if not only_names:
+        run.ob(R1, "data-to-the-opened-stream", ok, wf, wf["line"], "write() hands the bytes to the stream opened on the .part file")
+    run.floor(R1, 4 if not only_names else 1, "open/rename sites")
 
     # ---------------- R15.2 close: flush -> close -> rename(part, final)
-    cf = facts.fn(WSTR + "::close", rule="R15.2")
+    cf = facts.fn(WSTR + "::close", rule=R2)
     calls = ordered_calls(cf)
     seq = []
     ren = None
@@ -209,7 +228,8 @@ def check(run):
             ren = c
     core = [x for x in seq if x in ("flush", "close", "rename", "write", "open")]
     ok = core == ["flush", "close", "rename"]
-    run.ob("R15.2", "close:flush-close-rename", ok, cf, cf["line"],
+    if not only_names:
+      run.ob(R2, "close:flush-close-rename", ok, cf, cf["line"],
            "pending data flushed, descriptor closed, then the file is renamed" if ok else
            "Writer<std::string>::close performs %s; the file must be given its final name only after flush and close" % core)
     if ren is not None and open_parts is not None:
@@ -218,14 +238,19 @@ def check(run):
         ok = src == open_parts and dst == open_parts[:-1]
         if not ok and cache_undecided:
             ok = None
-        run.ob("R15.2", "close:rename(part,final)", ok, cf, ren[0].get("l", 0),
+        run.ob(R2, "close:rename(part,final)", ok, cf, ren[0].get("l", 0),
                "rename(<opened .part path>, <same path without .part>)" if ok else
                ("rename(%s, %s) does not move the opened path %s to its name without .part" % (src, dst, open_parts) if ok is False else
                 "rename(%s, %s): names kept in members whose refresh protocol is not decided: %s" % (src, dst, cache_undecided)))
         # rename only when the stream was open
         okg = any("is_open" in repr(a) for a in conjuncts(ren[1]))
-        run.ob("R15.2", "close:rename-only-if-open", okg, cf, ren[0].get("l", 0), "nothing is renamed unless a stream was open")
-    run.floor("R15.2", 3, "close ordering")
+        if not only_names:
+            run.ob(R2, "close:rename-only-if-open", okg, cf, ren[0].get("l", 0), "nothing is renamed unless a stream was open")
+    run.floor(R2, 3 if not only_names else 1, "close ordering")
+
+
+def check_rest(run):
+    facts = run.facts
 
     # ---------------- R15.3 destruction order
     def field_order(cls):
